@@ -321,8 +321,10 @@ func (fs *FileSink) fileNamePattern() string {
 		ext = ".log"
 	}
 
-	// Add format string between file and extension
-	return strings.TrimSuffix(fs.FileName, ext) + "-%s" + ext
+	// Add format string between file and extension; the name itself is not
+	// part of the format, so any '%' in it is escaped
+	name := strings.ReplaceAll(strings.TrimSuffix(fs.FileName, ext), "%", "%%")
+	return name + "-%s" + strings.ReplaceAll(ext, "%", "%%")
 }
 
 func (fs *FileSink) newFileName(createTime time.Time) string {
